@@ -140,9 +140,18 @@ fn read_message() -> io::Result<Option<serde_json::Value>> {
         io::Error::new(io::ErrorKind::InvalidData, "Missing Content-Length header")
     })?;
 
-    // Read the JSON content
-    let mut buffer = vec![0u8; content_length];
-    stdin.read_exact(&mut buffer)?;
+    // Read the JSON content. The length comes from the client, so don't
+    // allocate it up front: an absurd value would abort the process.
+    let mut buffer: Vec<u8> = Vec::new();
+    let bytes_read = (&mut stdin)
+        .take(content_length as u64)
+        .read_to_end(&mut buffer)?;
+    if bytes_read < content_length {
+        return Err(io::Error::new(
+            io::ErrorKind::UnexpectedEof,
+            "failed to fill whole buffer",
+        ));
+    }
 
     let message: serde_json::Value = serde_json::from_slice(&buffer)?;
     Ok(Some(message))
